@@ -61,8 +61,10 @@ def assist(project, source, position, filename=None, debug=False):
             names = value.attr_list(ctx)
     else:
         name = get_marked_name(source.tree)
-        if name:
-            names = name.flow.names_at(position)
+        # a name in a place the analysis does not follow belongs to no region
+        flow = getattr(name, 'flow', None)
+        if flow:
+            names = flow.names_at(position)
 
     # the name under the cursor carries the internal mark: never propose it
     return prefix, sorted(n for n in names if not marked(n))
